@@ -181,6 +181,11 @@ static MPT_INTERFACE(metatype) *bufferCopy(MPT_INTERFACE(metatype) *(*copy)(cons
 	ptr = (void *) res;
 	ptr->s._len = sl->_len;
 	ptr->s._off = sl->_off;
+	/* text position follows element offset */
+	if (ptr->str) {
+		const MPT_STRUCT(buffer) *buf = ptr->s._a._buf;
+		ptr->str = buf ? ((const char *) (buf + 1)) + ptr->s._off : 0;
+	}
 	return res;
 }
 static MPT_INTERFACE(metatype) *bufferClone(const MPT_INTERFACE(metatype) *mt)
